@@ -32,6 +32,14 @@ type Obj struct {
 	ID     int
 	Tag    interface{} // opaque model payload (vfs file, regexp, ...)
 	Typ    types.Type  // allocation type (informational)
+	// strings made from this array without copying (unsafe.String): a later write to the array is
+	// visible through them and through their substrings, as it is in memory
+	aliases []strAlias
+}
+
+type strAlias struct {
+	off int
+	b   []*Term
 }
 
 type Ptr struct {
@@ -291,6 +299,13 @@ func (in *Interp) setSlot(o *Obj, idx int, v Value) {
 		in.undo = append(in.undo, undoRec{obj: o, idx: idx, old: o.Slots[idx]})
 	}
 	o.Slots[idx] = v
+	for _, al := range o.aliases {
+		if idx >= al.off && idx < al.off+len(al.b) {
+			if t, ok := v.(*Term); ok {
+				al.b[idx-al.off] = t
+			}
+		}
+	}
 }
 
 func (in *Interp) rollback() {
